@@ -1095,8 +1095,7 @@ fn soup(rng: &mut Rng, names: &[&str], attrs_for: &dyn Fn(&mut Rng, &str) -> Vec
                 // quick-xml (check_end_names = false) accepts any name in an end tag but rejects an end tag
                 // with nothing open: the soup keeps the depth non-negative, the names are free
                 if let Some(open) = stack.pop() {
-                    // (the end tag of an annotation keeps its name: the reader has no Eof arm while skipping one)
-                    out.push(X::End(if chaos && open != "office:annotation" { rng.pick(names).to_string() } else { open }));
+                    out.push(X::End(if chaos { rng.pick(names).to_string() } else { open }));
                 }
             }
             7 | 8 => {
@@ -1112,8 +1111,8 @@ fn soup(rng: &mut Rng, names: &[&str], attrs_for: &dyn Fn(&mut Rng, &str) -> Vec
             _ => out.push(X::Comment),
         }
     }
-    // usually close what is open (always when an annotation is open)
-    if rng.chance(3, 4) || stack.iter().any(|n| n == "office:annotation") {
+    // usually close what is open
+    if rng.chance(3, 4) {
         while let Some(nm) = stack.pop() {
             out.push(X::End(nm));
         }
@@ -1971,12 +1970,18 @@ fn main() {
          by XML), never inside CDATA. Outside the quantifier (observed and counted, compared with the model only): OOXML \
          _xHHHH_ escapes (not decoded), text:tab / text:line-break (contribute nothing), an inline string element \
          without <t> and a t=str cell without <v> (read as Empty), pretty-printed ods (rejected by the row reader). \
-         non-trivial = a file with at least one non-ASCII-alphanumeric character in the string; distinct by file content",
+         non-trivial = a file with at least one non-ASCII-alphanumeric character in the string; distinct by file content. \
+         Before the files: quick_xml::escape::unescape vs the Lean unescape model vs the original string on every string \
+         escaped with a random spelling per character (literal / entity / decimal / hex reference, leading zeros, both \
+         digit cases), on escapes damaged at one place and on malformed inputs (value and error class); the harness' CDATA \
+         cut vs the Lean cdataSplit",
     );
     rep.notes.push(
-        "C19: quick-xml tokenisation (entity / character-reference unescaping, CDATA delimiting, attribute values, \
-         expand_empty_elements) and encoding_rs UTF-16 decoding are NOT modelled: the theorems start at the event list / \
-         code units; those layers are covered by this differential run only"
+        "C19: quick-xml's tokenizer (element / text / CDATA / comment boundaries, attribute parsing, encoding detection, \
+         the settings trim_text(false) / expand_empty_elements / check_end_names = false) and encoding_rs UTF-16 decoding are \
+         NOT modelled: the reader theorems start at the event list / code units and those layers are covered by this \
+         differential run only. quick-xml's escape::unescape IS modelled (Model/XmlEscape.lean) and compared here with \
+         the real function, value and error class"
             .into(),
     );
     let threads: usize = std::env::var("VERIF_THREADS")
@@ -1986,9 +1991,47 @@ fn main() {
         .max(1);
     let mut drivers: Vec<Driver> = (0..threads).map(|_| Driver::spawn(&args.driver)).collect();
     let mut jobs: Vec<Job> = vec![];
+    let mut esc_strings: Vec<String> = vec![];
     if let Some(inp) = &args.replay {
-        jobs.push(Job::Fixed(Case::parse(inp)));
+        if let Some(h) = inp.strip_prefix("unescape|") {
+            let mut r = Rng::new(0);
+            let input = unhx_s(h);
+            let reply = drivers[0].ask(&format!("unescape {}", if input.is_empty() { "-".to_string() } else { hx(input.as_bytes()) }));
+            let imp = esc_class(&quick_xml::escape::unescape(&input));
+            let model = match reply.strip_prefix("ok ") {
+                Some(h) => format!("S:{}", if h == "-" { "" } else { h }),
+                None => reply.clone(),
+            };
+            rep.case(&format!("unescape {input}"), true);
+            if imp != model {
+                rep.fail("impl_vs_model", "unescape:differs", inp, &imp, &model, "-");
+            }
+            let _ = &mut r;
+        } else if let Some(h) = inp.strip_prefix("cdatasplit|") {
+            let mut r = Rng::new(0);
+            escape_stage(&mut r, &[unhx_s(h)], &mut drivers[0], &mut rep);
+        } else {
+            jobs.push(Job::Fixed(Case::parse(inp)));
+        }
     } else {
+        // fixed malformed inputs of the unescape function first
+        {
+            let fixed: Vec<String> = MALFORMED.iter().map(|s| s.to_string()).collect();
+            let req = fixed.iter().map(|i| format!("unescape {}", hx(i.as_bytes()))).collect::<Vec<_>>().join(" | ");
+            let reply = drivers[0].ask(&req);
+            for (input, m) in fixed.iter().zip(reply.split(" | ")) {
+                let imp = esc_class(&quick_xml::escape::unescape(input));
+                let model = match m.strip_prefix("ok ") {
+                    Some(h) => format!("S:{}", if h == "-" { "" } else { h }),
+                    None => m.to_string(),
+                };
+                rep.case(&format!("unescape {input}"), true);
+                rep.count("unescape.fixed_malformed");
+                if imp != model {
+                    rep.fail("impl_vs_model", "unescape:differs", &format!("unescape|{}", hx(input.as_bytes())), &imp, &model, "-");
+                }
+            }
+        }
         jobs.extend(corpus().into_iter().map(Job::Fixed));
         let quick = !args.thorough();
         let n = args.count(3000, 300_000);
@@ -2005,20 +2048,156 @@ fn main() {
                     _ => ">1024",
                 }
             ));
+            esc_strings.push(s.clone());
             jobs.push(Job::Str { i, s, seed: rng.next() });
             if i % 2 == 0 {
                 jobs.push(Job::Soup { seed: rng.next() });
             }
             // keep memory flat in the thorough tier
             if jobs.len() >= 64 * threads {
+                let mut r2 = rng.fork();
+                escape_stage(&mut r2, &esc_strings, &mut drivers[0], &mut rep);
+                esc_strings.clear();
                 run_batch(&mut jobs, &mut drivers, &mut rep);
             }
         }
+    }
+    {
+        let mut r2 = Rng::new(args.seed ^ 0xE5C);
+        escape_stage(&mut r2, &esc_strings, &mut drivers[0], &mut rep);
     }
     run_batch(&mut jobs, &mut drivers, &mut rep);
     rep.add("driver_requests", drivers.iter().map(|d| d.requests).sum());
     rep.add("threads", threads as u64);
     rep.write(&args.out);
+}
+
+// ------------------------------------------------------------------------------------------------
+// below the event list: quick-xml's unescape and the CDATA cut, implementation vs model vs oracle
+// ------------------------------------------------------------------------------------------------
+
+fn esc_class(r: &Result<std::borrow::Cow<str>, quick_xml::escape::EscapeError>) -> String {
+    use quick_xml::escape::{EscapeError as E, ParseCharRefError as P};
+    match r {
+        Ok(s) => format!("S:{}", hx(s.as_bytes())),
+        Err(E::UnrecognizedEntity(..)) => "err:UnrecognizedEntity".into(),
+        Err(E::UnterminatedEntity(..)) => "err:UnterminatedEntity".into(),
+        Err(E::InvalidCharRef(P::UnexpectedSign)) => "err:InvalidCharRef(UnexpectedSign)".into(),
+        Err(E::InvalidCharRef(P::InvalidNumber(_))) => "err:InvalidCharRef(InvalidNumber)".into(),
+        Err(E::InvalidCharRef(P::InvalidCodepoint(_))) => "err:InvalidCharRef(InvalidCodepoint)".into(),
+        Err(E::InvalidCharRef(P::IllegalCharacter(_))) => "err:InvalidCharRef(IllegalCharacter)".into(),
+    }
+}
+
+/// `s` with a random spelling per character (the knobs of `Spec/XmlEscape.escape`)
+fn escape_any(rng: &mut Rng, s: &str) -> String {
+    let mut o = String::new();
+    for c in s.chars() {
+        let zeros = "0".repeat(if rng.chance(1, 4) { rng.range(1, 3) as usize } else { 0 });
+        match rng.below(5) {
+            0 if c != '&' => o.push(c),
+            1 => match named_entity(c) {
+                Some(e) => o.push_str(e),
+                None => o.push(c),
+            },
+            2 => o.push_str(&format!("&#{zeros}{};", c as u32)),
+            3 => o.push_str(&format!("&#x{zeros}{:x};", c as u32)),
+            _ => o.push_str(&format!("&#x{zeros}{:X};", c as u32)),
+        }
+    }
+    o
+}
+
+const MALFORMED: &[&str] = &[
+    "&", "a&", "&amp", "&amp;&", "&a&b;", "&;", "&#;", "&#x;", "&#X41;", "&#+65;", "&#-65;", "&#x+41;", "&#99999999;", "&#4294967295;",
+    "&#4294967296;", "&#99999999999;", "&#0;", "&#00;", "&#x0;", "&#xD800;", "&#xDFFF;", "&#x110000;", "&#1;", "&#xFFFE;", "&#xFFFF;",
+    "&unknown;", "&AMP;", "&Lt;", "&nbsp;", "&amp ;", "& amp;", "&#6 5;", "&#x4G;", "&#65", ";", ";;&lt;;", "&#xx41;", "&#x41;&#X41;", "&apos;&quot;",
+];
+
+fn gen_malformed(rng: &mut Rng) -> String {
+    const AL: &[&str] = &["&", "&", ";", ";", "#", "x", "X", "0", "1", "9", "a", "f", "F", "G", "+", "-", "lt", "gt", "amp", "apos", "quot", " ", "é", "😀", "&#", "&#x"];
+    (0..rng.range(1, 8)).map(|_| *rng.pick(AL)).collect()
+}
+
+/// one batch of unescape / cdata-split comparisons through the driver
+fn escape_stage(rng: &mut Rng, strings: &[String], drv: &mut Driver, rep: &mut Report) {
+    // (input, oracle) — oracle None: malformed or arbitrary input, implementation vs model only
+    let mut items: Vec<(String, Option<String>)> = vec![];
+    for s in strings {
+        if s.contains('\0') || s.len() > 4000 {
+            continue;
+        }
+        items.push((escape_any(rng, s), Some(s.clone())));
+        if !s.contains('&') {
+            items.push((s.clone(), Some(s.clone())));
+        }
+        items.push((gen_malformed(rng), None));
+        if rng.chance(1, 3) {
+            // a valid escape damaged at one place
+            let mut e: Vec<char> = escape_any(rng, s).chars().collect();
+            if !e.is_empty() {
+                let i = rng.below(e.len() as u64) as usize;
+                match rng.below(3) {
+                    0 => {
+                        e.remove(i);
+                    }
+                    1 => e.insert(i, *rng.pick(&['&', ';', '#', 'x', '+', '0'])),
+                    _ => e[i] = *rng.pick(&['&', ';', '#', 'X', 'g']),
+                }
+            }
+            items.push((e.into_iter().collect(), None));
+        }
+    }
+    for chunk in items.chunks(64) {
+        let req = chunk.iter().map(|(i, _)| format!("unescape {}", if i.is_empty() { "-".to_string() } else { hx(i.as_bytes()) })).collect::<Vec<_>>().join(" | ");
+        let reply = drv.ask(&req);
+        for ((input, oracle), m) in chunk.iter().zip(reply.split(" | ")) {
+            let imp = esc_class(&quick_xml::escape::unescape(input));
+            let model = match m.strip_prefix("ok ") {
+                Some(h) => format!("S:{}", if h == "-" { "" } else { h }),
+                None => m.to_string(),
+            };
+            rep.case(&format!("unescape {input}"), input.contains('&'));
+            rep.count(if oracle.is_some() { "unescape.valid" } else if imp.starts_with("S:") { "unescape.arbitrary.ok" } else { "unescape.arbitrary.err" });
+            if !imp.starts_with("S:") {
+                rep.count(&format!("unescape.{}", &imp[4..]));
+            }
+            let inp = format!("unescape|{}", hx(input.as_bytes()));
+            if imp != model {
+                rep.fail("impl_vs_model", "unescape:differs", &inp, &imp, &model, "-");
+            }
+            if let Some(o) = oracle {
+                let want = format!("S:{}", hx(o.as_bytes()));
+                if imp != want {
+                    rep.fail("impl_vs_spec", "unescape:roundtrip", &inp, &imp, &model, &want);
+                } else if model != want {
+                    rep.fail("model_vs_spec", "unescape:model", &inp, &imp, &model, &want);
+                }
+            }
+        }
+    }
+    // the writer's CDATA cut: the harness' own cut (what the files contain) against the Lean definition
+    let cd: Vec<&String> = strings.iter().filter(|s| !s.contains('\r') && s.len() <= 4000).collect();
+    for chunk in cd.chunks(64) {
+        let req = chunk.iter().map(|s| format!("cdatasplit {}", if s.is_empty() { "-".to_string() } else { hx(s.as_bytes()) })).collect::<Vec<_>>().join(" | ");
+        let reply = drv.ask(&req);
+        for (s, m) in chunk.iter().zip(reply.split(" | ")) {
+            let mut out = vec![];
+            push_cdata(&mut out, s);
+            let mine: Vec<String> = out.iter().map(|e| match e { X::CData(t) => hx(t.as_bytes()), _ => "?".into() }).collect();
+            let model: Vec<String> = m.split(' ').skip(1).filter(|h| !h.is_empty()).map(|h| h.to_string()).collect();
+            rep.case(&format!("cdatasplit {s}"), s.contains("]]>"));
+            if s.contains("]]>") {
+                rep.count("cdatasplit.with_terminator");
+            }
+            if mine != model {
+                rep.fail("impl_vs_model", "cdatasplit:differs", &format!("cdatasplit|{}", hx(s.as_bytes())), &mine.join(" "), &model.join(" "), "-");
+            }
+            if mine.iter().any(|h| h.contains("5d5d3e") && unhx_s(h).contains("]]>")) || mine.iter().map(|h| unhx_s(h)).collect::<String>() != **s {
+                rep.fail("model_vs_spec", "cdatasplit:writer", &format!("cdatasplit|{}", hx(s.as_bytes())), &mine.join(" "), &model.join(" "), "-");
+            }
+        }
+    }
 }
 
 /// unit of work for a worker thread
